@@ -28,9 +28,9 @@ CARGO_ENV = dict(os.environ, CARGO_NET_OFFLINE="true", CARGO_TARGET_DIR=TARGET, 
 TRUSTED_BASE = [
     "Lean 4.33 kernel; axioms allowed: propext, Classical.choice, Quot.sound (audited with #print axioms); no native_decide/bv_decide/sorry/own axioms",
     "hand-written Lean model of the algorithmic code (modelled, not verified): tied to /repo by differential testing at the CLI boundary and in-process (finite samples)",
-    "tools/extract_tables.py (Rust tokenizer, cfg evaluation for unix/linux/default features) for the generated tables",
+    "tools/extract_tables.py (Rust tokenizer, cfg evaluation for unix/linux/default features) for the generated code tables; tools/extract_docs.py for the alias groups of docs/usage.md",
     "correspondence harness: snapshot reader (python os/hashlib/zipfile), process runner, canonicaliser",
-    "external crates/OS as assumed definitions: regex (fragment), serde_json escaping, csv quoting, humansize, chrono fixed-offset local time, zip, libgit2, std::fs canonicalize/read_dir/read_link, f64 (exact on integers < 2^53)",
+    "external crates/OS as assumed definitions: regex (a fragment is modelled), serde_json escaping, csv quoting, humansize, chrono fixed-offset local time, zip, libgit2 (verdicts are snapshot input from `git check-ignore`), sha1/sha2/sha3, uzers, xattr, std::fs canonicalize/read_dir/read_link; f64 modelled in ℚ with an exactness flag (no signed zero; exact on integers < 2^53)",
     "dev-profile binary (overflow checks on)",
 ]
 
